@@ -45,7 +45,7 @@ def dup_source(beh, upto, t):
 
 def replay(ctx, idx, beh, opts):
     """Replays one behaviour; returns (violations, stats)."""
-    rng = random.Random(ctx.seed * 1000003 + idx)
+    beh, inplace = beh       # edits keep the inode (filegroups hard-link sources) or replace it
     base = os.path.join(ctx.scratch, "h%d" % idx)
     os.makedirs(base, exist_ok=True)
     cache_dir = os.path.join(base, "cache") if opts.get("cache") else None
@@ -60,8 +60,8 @@ def replay(ctx, idx, beh, opts):
     for si, st in enumerate(beh["steps"]):
         act = st["act"]
         if act == "EditFile":
-            repo.write_file(st["f"], st["c"], inplace=rng.random() < 0.5)
-            trace.append("edit %s=%s" % (st["f"], st["c"]))
+            repo.write_file(st["f"], st["c"], inplace=inplace)
+            trace.append("edit %s=%s (%s)" % (st["f"], st["c"], "in place" if inplace else "replaced"))
         elif act == "EditDef":
             defs = list(repo.defs)
             defs[st["t"] - 1] = st["def"]
@@ -76,7 +76,7 @@ def replay(ctx, idx, beh, opts):
             rc, outp, started, _ = repo.build(req, threads=threads)
             trace.append("build %s -> rc=%d ran=%s" % (req, rc, started))
             clean = e2e.clean_build(ctx.scratch, repo, req)
-            detail = dict(behaviour=beh, step=si, opts=opts, trace=list(trace))
+            detail = dict(behaviour=beh, step=si, opts=dict(opts, inplace=inplace), trace=list(trace))
             if clean["rc"] != 0:
                 raise vlib.Infra("clean build of a generated repository fails (harness/spec error):\n%s\n%s"
                                  % ("\n".join(trace), clean["out"]))
@@ -144,32 +144,73 @@ def nontrivial(beh):
     return False
 
 
+def shape_of(beh):
+    """Stratum of a history: kinds of the initial targets and the sequence of step kinds."""
+    steps = []
+    for st in beh["steps"]:
+        if st["act"] == "Build":
+            steps.append("B%s" % "".join(map(str, st["req"])))
+        elif st["act"] == "EditDef":
+            steps.append("D%d%s" % (st["t"], st["def"]["kind"]))
+        elif st["act"] == "EditFile":
+            steps.append("F" + st["f"])
+        else:
+            steps.append("X")
+    return "/".join(d["kind"] for d in e2e.norm_defs(beh["init"]["defs"])) + ":" + ",".join(steps)
+
+
 def generate(ctx, cfgs, quick_n):
-    behs = []
-    for cfg, kw in cfgs:
+    """cfgs: list of (cfg, kwargs, keep_all). Histories of keep_all configurations are all replayed; the others are
+    sampled (stratified, seeded) down to quick_n in the quick tier."""
+    keep, pool = [], []
+    for cfg, kw, keep_all in cfgs:
         r = vlib.tlc(ctx, "Incremental", cfg, timeout=1500, **kw)
-        behs += r.behaviours
-    # canonical order, then a seeded sample in the quick tier
-    behs.sort(key=lambda b: json.dumps(b, sort_keys=True))
-    uniq = []
-    last = None
-    for b in behs:
-        k = json.dumps(b, sort_keys=True)
-        if k != last:
-            uniq.append(b)
-        last = k
-    total = len(uniq)
-    if ctx.quick and len(uniq) > quick_n:
+        (keep if keep_all else pool).extend(r.behaviours)
+
+    def uniq(bs):
+        seen, out = set(), []
+        for b in sorted(bs, key=lambda b: json.dumps(b, sort_keys=True)):
+            k = json.dumps(b, sort_keys=True)
+            if k not in seen:
+                seen.add(k)
+                out.append(b)
+        return out
+    keep, pool = uniq(keep), uniq(pool)
+    total = len(keep) + len(pool)
+    if ctx.quick and len(pool) > quick_n:
+        # stratified seeded sample: one history per "shape" (initial repository, sequence of step kinds) in turn
         rng = random.Random(ctx.seed)
-        nt = [b for b in uniq if nontrivial(b)]
-        uniq = rng.sample(nt, min(quick_n, len(nt)))
-    return uniq, total
+        strata = {}
+        for b in pool:
+            if nontrivial(b):
+                strata.setdefault(shape_of(b), []).append(b)
+        keys = sorted(strata)
+        rng.shuffle(keys)
+        for k in keys:
+            rng.shuffle(strata[k])
+        picked = []
+        while len(picked) < quick_n and any(strata.values()):
+            for k in keys:
+                if strata[k] and len(picked) < quick_n:
+                    picked.append(strata[k].pop())
+        pool = picked
+    behs = []
+    for b in keep + pool:
+        # histories that edit a file are replayed with in-place edits (same inode: filegroups hard-link sources) and,
+        # for the exhaustive part, also with atomic replacement
+        if any(st["act"] == "EditFile" for st in b["steps"]):
+            behs.append((b, True))
+            if b in keep or not ctx.quick:
+                behs.append((b, False))
+        else:
+            behs.append((b, True))
+    return behs, total
 
 
 def common(ctx, prop, opts_list, cfgs, quick_n):
     vlib.build_plz()
     if ctx.replay_only is not None:
-        behs = [d["behaviour"] for d in ctx.replay_only]
+        behs = [(d["behaviour"], d["opts"].get("inplace", True)) for d in ctx.replay_only]
         total = len(behs)
     else:
         # design level: the algorithm model satisfies C01/C02/C03 with collision-free hashing (the GEN configurations
@@ -184,8 +225,8 @@ def common(ctx, prop, opts_list, cfgs, quick_n):
     drift = 0
     for oi, opts in enumerate(opts_list):
         opts = dict(opts, prop=prop)
-        for beh, (viols, st) in run_histories(ctx, behs, opts):
-            key = json.dumps([beh, oi], sort_keys=True)
+        for (beh, inpl), (viols, st) in run_histories(ctx, behs, opts):
+            key = json.dumps([beh, oi, inpl], sort_keys=True)
             ctx.count(key, nontrivial=nontrivial(beh),
                       sample=dict(options=opts, trace=st["trace"]) if nontrivial(beh) and len(st["trace"]) > 4 else None)
             ctx.traces_validated += st["builds"]
@@ -194,7 +235,7 @@ def common(ctx, prop, opts_list, cfgs, quick_n):
                 ctx.violation(sig, det)
     if drift:
         ctx.drift("%d build(s) executed a different command set than the algorithm model predicted (allowed by the property)" % drift)
-    ctx.exhaustive = not ctx.quick
+    ctx.exhaustive = True   # every one-edit history (quick) / every history of the bounded model (thorough) is replayed
     ctx.assumptions += ["SHA collisions do not occur (hashes abstract and injective in the spec, DESIGN 2.7)",
                        "compared: declared outputs of the requested targets and their dependencies; stray files in plz-out are not outputs",
                        "the clean build (empty plz-out, no cache) of the same tree is the oracle; the spec's Ideal term predicts it and a mismatch between the two is exit 2"]
@@ -217,10 +258,12 @@ CLAIM01 = dict(
 def run_c01(ctx):
     ctx.rule = ("histories = one per distinct reachable state of Incremental.tla ending in a build at the edit bound (TLC BFS, VIEW without history); "
                 "quick: seeded sample; non-trivial = contains an edit or plz-out deletion between two builds; distinct by full history + options")
-    cfgs = [("GEN_Incremental.cfg", {}), ("GEN_Incremental_dir.cfg", {})]
+    # quick: every history with one edit (incl. no-op rebuilds before and after it) + a sample of two-edit ones
+    cfgs = [("GEN_Incremental_1.cfg", {}, True), ("GEN_Incremental_dir1.cfg", {}, True), ("GEN_Incremental.cfg", {}, False),
+            ("GEN_Incremental_dir.cfg", {}, False)]
     if not ctx.quick:
-        cfgs = [("GEN_Incremental_3.cfg", {}), ("GEN_Incremental_dir.cfg", {})]
-    common(ctx, "C01", [dict(threads=None)], cfgs, quick_n=150)
+        cfgs = [("GEN_Incremental_1.cfg", {}, True), ("GEN_Incremental.cfg", {}, True), ("GEN_Incremental_dir.cfg", {}, True)]
+    common(ctx, "C01", [dict(threads=None)], cfgs, quick_n=80)
 
 
 CLAIM02 = dict(
@@ -236,8 +279,10 @@ CLAIM02 = dict(
 def run_c02(ctx):
     ctx.rule = ("histories of Incremental.tla with UseCache=TRUE (edits, plz-out deletion, A->B->A content moves), each replayed with dircompress off and on; "
                 "non-trivial = edit or plz-out deletion between two builds; distinct by history + cache mode")
-    cfgs = [("GEN_Incremental_cache.cfg", {})] if ctx.quick else [("GEN_Incremental_cache3.cfg", {})]
-    common(ctx, "C02", [dict(cache=True, compress=False), dict(cache=True, compress=True)], cfgs, quick_n=100)
+    cfgs = [("GEN_Incremental_cache1.cfg", {}, True), ("GEN_Incremental_cache.cfg", {}, False)]
+    if not ctx.quick:
+        cfgs = [("GEN_Incremental_cache1.cfg", {}, True), ("GEN_Incremental_cache.cfg", {}, True)]
+    common(ctx, "C02", [dict(cache=True, compress=False), dict(cache=True, compress=True)], cfgs, quick_n=40)
 
 
 CLAIM03 = dict(
@@ -254,5 +299,8 @@ CLAIM03 = dict(
 def run_c03(ctx):
     ctx.rule = ("histories of Incremental.tla (as C01) replayed e2e; the set of commands started per invocation is read from the action log; "
                 "non-trivial = edit or plz-out deletion between two builds")
-    cfgs = [("GEN_Incremental.cfg", {})] if ctx.quick else [("GEN_Incremental_3.cfg", {})]
-    common(ctx, "C03", [dict(threads=None)], cfgs, quick_n=150)
+    cfgs = [("GEN_Incremental_1.cfg", {}, True), ("GEN_Incremental_dir1.cfg", {}, True), ("GEN_Incremental.cfg", {}, False)]
+    if not ctx.quick:
+        cfgs = [("GEN_Incremental_1.cfg", {}, True), ("GEN_Incremental_dir1.cfg", {}, True), ("GEN_Incremental.cfg", {}, True),
+                ("GEN_Incremental_dir.cfg", {}, True)]
+    common(ctx, "C03", [dict(threads=None)], cfgs, quick_n=80)
